@@ -1,2 +1,82 @@
-"""C13 -- not claimed."""
-NOT_APPLICABLE = 'the coroutine configuration compiles to IR, but no harness with real coroutine frames (ramp/resume/destroy, symmetric transfer) was built in the time available; only MutexImpl is covered (C14)'
+"""C13 -- coroutines resume once, after the awaited event, with its outcome, where asked.  Real C++20 coroutines (clang CoroSplit
+output) through the encoder; sequential scenarios + Tier A cubes for the suspend-vs-complete race."""
+import core
+
+LIB = [('src/algo/base_core.cpp',), ('src/exe/inline.cpp',), ('src/algo/drop_core.cpp',), ('src/lazy/task_impl.cpp',), ('src/algo/shared_core.cpp',)]
+STARTS = [('await_one', 0), ('await_two', 1), ('on_then_await', 2), ('on_stopped', 3), ('await_on', 4), ('lazy', 5)]
+
+
+def entry(name, pargs, pre, outer, inner_idx, k, epi, kmax):
+    s = 'void %s(void) {\n  vp_spurious_cfg = 0; vp_spurious_at = -1;\n  vp_init();\n  c13_prologue(%s);\n' % (name, pargs)
+    for f in pre:
+        s += '  %s();\n' % f
+    s += '  vp_unit_sel = %d; vp_pre_k = %d; vp_pre_enabled = 1;\n  %s();\n' % (inner_idx, k, outer)
+    if k < 0:
+        s += '  VP_ASSERT(vp_pre_count <= %d, "VP-BOUND: unit performs more atomic operations than there are preemption cubes");\n' % kmax
+    s += '  vp_run_pending_unit();\n  vp_pre_enabled = 0;\n  %s;\n}\n' % epi
+    return s
+
+
+def plan(tier, seed, ctx):
+    kmax = 12 if tier == 'quick' else 16
+    queries, modules, mopts = [], {}, {}
+    cfgs = ['coro20'] if tier == 'quick' else ['coro20', 'coro20nst']
+    for cfg in cfgs:
+        mn = 'c13_' + cfg
+        modules[mn] = [('harness/C13_api.cpp', cfg)] + [(l[0], cfg) for l in LIB]
+        mopts[mn] = {'nthreads': 2, 'heap': 2048, 'stack': 4096, 'preempt': True}
+        units = ['c13_set0', 'c13_set1', 'c13_set_shared'] + ['c13_start_' + s for s, _ in STARTS] + ['c13_start_shared0', 'c13_start_shared1']
+        head = core.decls(units + ['c13_misc', 'c13_epilogue_shared']) + 'void c13_prologue(uint32_t, uint32_t, uint32_t, uint32_t);\nvoid c13_epilogue(uint32_t);\n' + core.unit_selector(units)
+        first = [True]
+
+        def add(name, text, what, fam=None):
+            queries.append({'name': name, 'module': mn, 'main': (head if first[0] else '') + text, 'unwind': 10, 'timeout': 300, 'sample': what, 'witness': 'any', 'family': fam})
+            first[0] = False
+        add('%s_misc' % mn, 'void %s_misc(void) { vp_init(); c13_misc(); }\n' % mn, 'escaping exception, On + Yield + CurrentExecutor (sequential) [%s]' % cfg)
+        for (st, which) in STARTS:
+            su = 'c13_start_' + st
+            kinds = (0, 1, 2) if which in (0, 2, 5) else (0,)
+            for k0 in kinds:
+                for dfr in ((0, 1) if which in (2, 4) else (0,)):
+                    pargs = '%d, 0, %d, 0' % (k0, dfr)
+                    base = '%s_%s_%s%s' % (mn, st, 'vex'[k0], '_d' if dfr else '')
+                    # already ready / set before start (sequential)
+                    nm = base + '_ready'
+                    add(nm, entry(nm, pargs, ['c13_set0'] + (['c13_set1'] if which == 1 else []), su, 0, -1, 'c13_epilogue(%d)' % which, kmax + 20),
+                        '%s: awaited future(s) already ready [%s, input %s]' % (st, cfg, 'vex'[k0]))
+                    # suspend vs complete: start outer, set0 inner at every atomic op; and set0 outer, start inner
+                    for k in range(-1, kmax):
+                        nm = '%s_S_k%s' % (base, 'none' if k < 0 else k)
+                        add(nm, entry(nm, pargs, [], su, 1, k, 'c13_epilogue(%d)' % which, kmax),
+                            '%s: coroutine start (outer) vs Set of the awaited promise at atomic operation #%s [%s]' % (st, 'after the end' if k < 0 else k, cfg), base + '_S')
+                    for k in range(0, kmax):
+                        nm = '%s_P_k%d' % (base, k)
+                        add(nm, entry(nm, pargs, [], 'c13_set0', units.index(su) + 1, k, 'c13_epilogue(%d)' % which, kmax),
+                            '%s: Set (outer) vs coroutine start at atomic operation #%d [%s]' % (st, k, cfg), base + '_P')
+        # two coroutines awaiting one SharedFuture, fulfilment racing with the second one's suspension
+        for k in range(-1, kmax):
+            nm = '%s_shared_k%s' % (mn, 'none' if k < 0 else k)
+            add(nm, entry(nm, '0, 0, 0, 1', ['c13_start_shared0'], 'c13_start_shared1', 3, k, 'c13_epilogue_shared()', kmax),
+                'two coroutines co_await the same SharedFuture; SharedPromise::Set at atomic operation #%s of the second one\'s start [%s]' % ('after the end' if k < 0 else k, cfg), mn + '_shared')
+    meta = {
+        'rule': 'Per awaiter form x awaited outcome kind x executor mode: one sequential "already ready" query and both nestings of {start the coroutine until it suspends, complete what it awaits} '
+                'at every atomic operation; plus two coroutines on one SharedFuture.',
+        'bounds': {'coroutines': '1 (2 for SharedFuture)', 'awaited_objects': '1-2', 'logical_threads': 2, 'tier_A_kmax': kmax, 'configurations': cfgs},
+        'stubs': ['stub executors A, B (inline or deferred) and stopped S', 'operator new never fails (coroutine frames are ordinary heap blocks of the model)'],
+        'assumptions': ['clang 14\'s CoroSplit output is taken as the meaning of the coroutine (compiler correctness outside)', 'AwaitSticky, iterator forms of Await/AwaitOn, MSVC/Apple branches not covered',
+                        'thorough tier also checks the configuration without symmetric transfer'],
+        'functions_filter': r'(PromiseType|Awaiter|Await|Coro|c13_|Destroy)',
+        'explanation': 'Real code: coro/detail/promise_type.hpp, await_awaiter.hpp, await_on_awaiter.hpp, on_awaiter.hpp, coro/{await,await_on,on,yield,current_executor,future,task,shared_future}.hpp, '
+                       'the clang-generated ramp/resume/destroy functions of the harness coroutines, plus C01\'s core code.',
+    }
+    return {'modules': modules, 'queries': queries, 'meta': meta, 'module_opts': mopts}
+
+
+MANIFEST = {
+    'level_text': 'For real coroutines (clang-lowered frames, symmetric transfer) the solver shows for every payload and every well-nested two-unit schedule of coroutine start vs completion of the awaited '
+                  'promise: each co_await (Future&&, Await(f0,f1), AwaitOn(e,f), On(e), SharedFuture by two coroutines, lazy Task coroutine) resumes exactly once and only after the awaited event, '
+                  'receives the value or has the failure become its own Result, runs on the named executor, completes with StopError on a stopped executor, and that frames and live locals are destroyed exactly once.',
+    'level_note': '1-2 coroutines, 2 logical threads, well-nested schedules; compiler correctness of CoroSplit outside. Trusted: clang -O1 IR, ir2c, rt, cbmc.',
+    'technique': 'bounded model checking of real coroutine code (LLVM IR after CoroSplit) with solver-decided preemption cubes',
+    'design_ref': 'DESIGN.md 4 C13',
+}
